@@ -818,6 +818,10 @@ impl Scanner for EntryScanner<'_> {
                                 .expect("failed to make root name"));
                         }
                     }
+                    if write == start + 1 {
+                        // An empty label in the middle of the name.
+                        return Err(EntryError::bad_name());
+                    }
                     if write > 254 {
                         return Err(EntryError::bad_name());
                     }
